@@ -226,6 +226,13 @@ struct Shadow {
     eq: Vec<EqK>,
     body: Vec<Option<(Rc<Vec<Stmt>>, Vec<H>)>>,
     killed: Vec<bool>,
+    /// created while a cleanup callback was running (i.e. in the middle of some teardown)
+    born_in_cleanup: Vec<bool>,
+    /// number of the top-level operation in which the node was created / first seen dead by the judge
+    born_op: Vec<usize>,
+    dead_since: RefCell<Vec<Option<usize>>>,
+    op_no: usize,
+    cleanup_depth: u32,
     tracked: Vec<Vec<usize>>,
     runs_total: Vec<u32>,
     provided: Vec<Vec<(u8, i64)>>,
@@ -238,6 +245,11 @@ struct Shadow {
     batch_depth: u32,
     ran_inside_batch: Vec<usize>,
     writes_op: Vec<usize>,
+    /// signals written (not silently) while a batch was open, in this operation
+    batch_writes: Vec<usize>,
+    /// when the body of a top-level outermost batch ended: number of runs recorded so far, and what every computation
+    /// tracked in its latest run at that moment
+    batch_end: Option<(usize, Vec<Vec<usize>>)>,
     expected_panic: Option<&'static str>,
     ctx_fail: Option<String>,
     effect_wrote: bool,
@@ -295,6 +307,8 @@ impl Shadow {
         self.eq.push(EqK::Never);
         self.body.push(None);
         self.killed.push(false);
+        self.born_in_cleanup.push(self.cleanup_depth > 0);
+        self.born_op.push(self.op_no);
         self.tracked.push(vec![]);
         self.runs_total.push(0);
         self.provided.push(vec![]);
@@ -312,6 +326,14 @@ impl Shadow {
     fn kill_children(&mut self, n: usize) {
         for m in 0..self.owner.len() {
             if !self.killed[m] && self.is_descendant(m, n) {
+                self.killed[m] = true;
+            }
+        }
+    }
+    /// as `kill_children`, but the nodes in `keep` and what they own stay
+    fn kill_children_except(&mut self, n: usize, keep: &[usize]) {
+        for m in 0..self.owner.len() {
+            if !self.killed[m] && self.is_descendant(m, n) && !keep.iter().any(|k| m == *k || self.is_descendant(m, *k)) {
                 self.killed[m] = true;
             }
         }
@@ -421,10 +443,22 @@ fn create_comp(w: &Rc<World>, env: &mut Vec<H>, kind: Kind, eq: EqK, body: &[Stm
             let mut sh = w.sh.borrow_mut();
             if sh.zombie_run.is_none() { sh.zombie_run = Some(my); }
         }
+        // A node that a cleanup created IN this computation's scope (through a captured handle) while the computation was
+        // tearing down its previous run belongs to the NEW run: `dispose_children` detaches the old children first, then
+        // runs the cleanups. Whether a cleanup-born child dates from this teardown or from an earlier one cannot be seen
+        // from here, so for exactly these nodes the arena decides (a wrong survivor is still found at the next re-run or
+        // disposal of the computation).
+        let keep: Vec<usize> = {
+            let sh = w.sh.borrow();
+            if sh.runs_total[my] > 0 {
+                (0..sh.owner.len()).filter(|c| sh.owner[*c] == Some(my) && !sh.killed[*c] && sh.born_in_cleanup[*c]).collect::<Vec<_>>()
+            } else { vec![] }
+        };
+        let keep: Vec<usize> = keep.into_iter().filter(|c| alive_real(w, *c)).collect();
         {
             let mut sh = w.sh.borrow_mut();
             if sh.runs_total[my] > 0 {
-                sh.kill_children(my);
+                sh.kill_children_except(my, &keep);
                 // (the real dispose_children has already returned when the callback starts)
                 sh.provided[my].clear();
             }
@@ -587,6 +621,7 @@ fn exec_stmt(w: &Rc<World>, env: &mut Vec<H>, run: &mut Run, s: &Stmt) {
                 {
                     let mut sh = w.sh.borrow_mut();
                     sh.writes_op.push(id);
+                    if sh.batch_depth > 0 { sh.batch_writes.push(id); }
                     sh.tainted.remove(&id);
                     if sh.frames.len() > 1 && sh.frames.iter().any(|f| f.tracker.is_some() || sh.kind[f.current] == Some(Kind::Effect) || sh.kind[f.current] == Some(Kind::Memo)) {
                         sh.effect_wrote = true;
@@ -624,6 +659,7 @@ fn exec_stmt(w: &Rc<World>, env: &mut Vec<H>, run: &mut Run, s: &Stmt) {
                 {
                     let mut sh = w.sh.borrow_mut();
                     sh.cleanups[tag].1 += 1;
+                    sh.cleanup_depth += 1;
                     let cur = sh.cur();
                     sh.frames.push(Frame { current: cur, tracker: None });
                 }
@@ -635,7 +671,7 @@ fn exec_stmt(w: &Rc<World>, env: &mut Vec<H>, run: &mut Run, s: &Stmt) {
                 let mut env = captured.clone();
                 let mut run = Run { acc: 0, obs: vec![], reads: vec![] };
                 run_body(w, &mut env, &mut run, &body);
-                w.sh.borrow_mut().frames.pop();
+                { let mut sh = w.sh.borrow_mut(); sh.frames.pop(); sh.cleanup_depth -= 1; }
                 w.trace.borrow_mut().push(format!("c{tag}({})", run.obs.join(",")));
             });
         }
@@ -661,7 +697,11 @@ fn exec_stmt(w: &Rc<World>, env: &mut Vec<H>, run: &mut Run, s: &Stmt) {
             batch(|| {
                 run_inner(w, env, run, b);
                 // the closure is over: reactions may start from here when this is the outermost batch
-                w.sh.borrow_mut().batch_depth -= 1;
+                let mut sh = w.sh.borrow_mut();
+                sh.batch_depth -= 1;
+                if sh.batch_depth == 0 && sh.frames.len() == 1 {
+                    sh.batch_end = Some((sh.runs_op.len(), sh.tracked.clone()));
+                }
             });
         }
         Stmt::Provide(ty, e) => {
@@ -870,10 +910,26 @@ fn judge(w: &World, k: usize, op: &Stmt, snaps: &[Option<(usize, usize, usize, b
     if verif::node_count() != live {
         fails.push(format!("[node-count] op {k}: {} live nodes in the arena but {} of the created handles are alive", verif::node_count(), live));
     }
+    {
+        let mut ds = sh.dead_since.borrow_mut();
+        ds.resize(n, None);
+        for i in 0..n {
+            if snaps[i].is_none() && ds[i].is_none() { ds[i] = Some(k); }
+        }
+    }
     for i in 0..n {
         let alive = snaps[i].is_some();
         if alive && sh.killed[i] {
-            fails.push(format!("[leak] op {k}: node {i} is still alive although it (or its owner) was disposed or its owner re-ran"));
+            // a node that a cleanup created in a scope that was being DISPOSED at that moment (through a captured handle)
+            // is left behind when the scope goes: its own class, so that it is told apart from every other leak
+            // (the scope died in the very operation in which the node was born; a node born in the teardown of an earlier
+            // RE-RUN is an ordinary child by now)
+            let owner_dead = sh.owner[i].map(|o| snaps[o].is_none() && sh.dead_since.borrow()[o] == Some(sh.born_op[i])).unwrap_or(false);
+            if sh.born_in_cleanup[i] && owner_dead {
+                fails.push(format!("[orphan-born-in-teardown] op {k}: node {i}, created by a cleanup callback in scope {} while that scope was being disposed, is still alive although the scope is gone", sh.owner[i].unwrap()));
+            } else {
+                fails.push(format!("[leak] op {k}: node {i} is still alive although it (or its owner) was disposed or its owner re-ran"));
+            }
         }
         if !alive && !sh.killed[i] {
             fails.push(format!("[freed-early] op {k}: node {i} is dead although neither it nor an owner was disposed or re-ran"));
@@ -930,6 +986,23 @@ fn judge(w: &World, k: usize, op: &Stmt, snaps: &[Option<(usize, usize, usize, b
     if let Some(x) = sh.ran_inside_batch.first() {
         if !created_this_op(*x) {
             fails.push(format!("[ran-inside-batch] op {k}: computation {x} ran before the outermost batch ended"));
+        }
+    }
+    // C10: when the outermost batch returns, every surviving computation that was subscribed (at the end of the batch
+    // body) to a signal written inside the batch has run since — whoever made the write, and also when the subscriber
+    // was created inside the batch (its first run may have read the signal BEFORE the write)
+    if let Some((mark, tracked_at_end)) = &sh.batch_end {
+        let mut ws = sh.batch_writes.clone();
+        ws.sort();
+        ws.dedup();
+        for d in ws {
+            if snaps.get(d).map(|x| x.is_none()).unwrap_or(true) { continue; }
+            for i in 0..tracked_at_end.len().min(n) {
+                if !matches!(sh.kind[i], Some(Kind::Memo) | Some(Kind::Effect)) || snaps[i].is_none() || sh.killed[i] || !tracked_at_end[i].contains(&d) { continue; }
+                if !sh.runs_op[*mark..].iter().any(|r| r.0 == i) {
+                    fails.push(format!("[batch-missed-run] op {k}: signal {d} was written inside the batch and computation {i} was subscribed to it when the batch body ended, but {i} did not run when the batch returned"));
+                }
+            }
         }
     }
     let program_effect_writes = sh.effect_wrote;
@@ -1115,6 +1188,10 @@ pub fn run_case(ops: &[Stmt]) -> CaseResult {
                 sh.effect_wrote = false;
                 sh.zombie_run = None;
                 sh.batch_depth = 0;
+                sh.op_no = k;
+                sh.cleanup_depth = 0;
+                sh.batch_writes.clear();
+                sh.batch_end = None;
                 sh.frames.truncate(1);
                 sh.tracked.clone()
             };
@@ -1722,6 +1799,35 @@ fn templates() -> Vec<Vec<Stmt>> {
         p.push(Effect(vec![Read(1), Read(0)]));
         p.extend([s_set(0, 1), Dispose(2), s_set(1, 0), s_set(0, 2)]);
         t.push(p);
+    }
+    // nodes created in a scope WHILE that scope tears down the contents of its previous run (a cleanup that goes back
+    // into its own scope through a captured handle): they belong to the scope and go with its next re-run / disposal
+    for memo in [false, true] {
+        for inner in [vec![Signal(5)], vec![Signal(5), Effect(vec![Read(0)])], vec![Scope(vec![Cleanup(vec![ReadU(0)])]), Memo(vec![Read(0)])]] {
+            let body = vec![Read(0)];
+            let mut p = vec![Signal(0), if memo { Memo(body) } else { Effect(body) }];
+            p.push(RunIn(1, vec![Cleanup(vec![RunIn(1, inner.clone())])]));
+            p.extend([s_set(0, 1), s_set(0, 2), Dispose(1), s_set(0, 3)]);
+            t.push(p.clone());
+            // the cleanup is registered again by every run (through the handle of the enclosing scope's child)
+            let mut q = vec![Signal(0), Scope(vec![Effect(vec![Read(0)])])];
+            q.push(RunIn(1, vec![Cleanup(vec![RunIn(1, inner.clone())])]));
+            q.extend([s_set(0, 1), Dispose(1), s_set(0, 2)]);
+            t.push(q);
+        }
+    }
+    // computations created INSIDE a batch whose first run reads a signal and writes it (the subscription is recorded
+    // only after the run, the write is queued: the computation re-runs once when the outermost batch ends)
+    for memo in [false, true] {
+        for (w, nested) in [(Ex::C(5), false), (Ex::AccPlus(1), false), (Ex::C(5), true)] {
+            let wr = if nested { Scope(vec![Set(0, w)]) } else { Set(0, w) };
+            let body = vec![Read(0), wr];
+            let c = if memo { Memo(body) } else { Effect(body) };
+            t.push(vec![Signal(0), Batch(vec![c.clone()]), s_set(0, 1)]);
+            t.push(vec![Signal(0), Batch(vec![Batch(vec![c.clone()]), ReadU(0)]), s_set(0, 2)]);
+            // the written signal is another one, read by a computation created earlier in the same batch
+            t.push(vec![Signal(0), Signal(0), Batch(vec![Effect(vec![Read(0), Set(1, Ex::AccPlus(1)), Read(1)])]), s_set(0, 1)]);
+        }
     }
     // RootHandle::dispose() in the middle (Root::reinit): cleanups run once, everything of the first generation is
     // gone (orphans created by cleanups during the teardown included), the second generation starts from scratch
